@@ -334,7 +334,18 @@ def layout_text(text, info, model):
 
 # ---------------------------------------------------------------------------- C16
 
-def c16_text(t, dump, tier):
+def file_mode_obligation(prop, t, dump, tier, res, stats):
+    """C09/C10 speak about texts, but users format FILES: `format -f` must leave exactly the formatter's result in the file
+    (the wrapper is run in the engine with the file holding the unformatted text); findings are reported under the property
+    whose check runs, C16 reports the same thing under its own id"""
+    r, s = c16_text(t, dump, tier, modes=('file',), export=False)
+    stats['paths'] += s.get('paths', 0)
+    stats['inconclusive'].extend('file mode: ' + x for x in s.get('inconclusive', []))
+    for f in r:
+        res.append(BFinding(prop, f.locus, f.tag, 'file-mode:' + f.symptom, f.detail, f.cex))
+
+
+def c16_text(t, dump, tier, modes=('dsl', 'file', 'file+readerr', 'file+writeerr', 'none'), export=True):
     """the cmd wrappers run in the engine: formatCmd.Run, FormatPacketDslExport, Execute's argument handling, Compile + WriteCodeToFile"""
     res = []
     stats = {'paths': 0, 'inconclusive': []}
@@ -350,7 +361,7 @@ def c16_text(t, dump, tier):
     if lib is None:
         return res, stats
     lib_out, lib_err = lib
-    for mode in ('dsl', 'file', 'file+readerr', 'file+writeerr', 'none'):
+    for mode in modes:
         def run(c, mode=mode):
             M = make_machine(c)
             snap = Snapshot(prog, dump).load()
@@ -427,7 +438,7 @@ def c16_text(t, dump, tier):
                     res.append(BFinding('C16', 'cmd:format', t.tag, 'noinput-ignored', 'no input given: exit %s' % code, {'text': t.text}))
     # C export
     exp = MOD + '/cmd.FormatPacketDslExport'
-    if exp in prog.F:
+    if export and exp in prog.F:
         def run2(c):
             M = make_machine(c)
             snap = Snapshot(prog, dump).load()
@@ -450,7 +461,7 @@ def c16_text(t, dump, tier):
                         res.append(BFinding('C16', 'lib:FormatPacketDslExport', t.tag, 'error-not-prefixed', 'syntax error: C export returns %r' % ((s or '')[:100]), {'text': t.text}))
         except Unsupported as u:
             stats['inconclusive'].append('export: %s' % str(u)[:150])
-    else:
+    elif export:
         stats['inconclusive'].append('FormatPacketDslExport not in the SSA dump')
     return res, stats
 
@@ -795,7 +806,21 @@ def c16_all(t, dump, tier):
     return r1 + r2, {'paths': s1['paths'] + s2['paths'], 'inconclusive': s1['inconclusive'] + s2['inconclusive']}
 
 
-checks_b.TEXT_FUNCS.update({'C09': c09_text, 'C10': c10_text, 'C16': c16_all})
+def c09_with_file_mode(t, dump, tier):
+    res, stats = c09_text(t, dump, tier)
+    if not dump.get('panic'):
+        file_mode_obligation('C09', t, dump, tier, res, stats)
+    return res, stats
+
+
+def c10_with_file_mode(t, dump, tier):
+    res, stats = c10_text(t, dump, tier)
+    if not dump.get('panic') and not dump.get('syntax_errors'):
+        file_mode_obligation('C10', t, dump, tier, res, stats)
+    return res, stats
+
+
+checks_b.TEXT_FUNCS.update({'C09': c09_with_file_mode, 'C10': c10_with_file_mode, 'C16': c16_all})
 checks_b.EXPLAIN.update({
     'C09': 'the real FormatPacketDsl runs in the symbolic engine on native parse snapshots with every token line symbolic; each distinct output is re-parsed by the real ANTLR parser and its token sequence (comments and doc strings included) compared with the input; compiled outputs compared natively; the syntax-error path runs with the listener fed the native errors',
     'C10': 'layout-canonical: one symbolic run per text with all token lines bit-vector variables constrained only by "each comment stays on the line of the same token"; every feasible path must give the same text; idempotence: the formatter re-runs on the real parse of its own output',
